@@ -1,0 +1,26 @@
+//go:build verif
+
+// Package c04 re-exports, for the /verif harness of property C04 only, the
+// parts of internal packages that a different module cannot import. Compiled
+// only with -tags verif.
+package c04
+
+import (
+	"github.com/lni/dragonboat/v4/config"
+	"github.com/lni/dragonboat/v4/internal/logdb"
+	"github.com/lni/dragonboat/v4/internal/raft"
+	"github.com/lni/dragonboat/v4/internal/tan"
+	pb "github.com/lni/dragonboat/v4/raftpb"
+)
+
+// UpdateFlags is raft.validateUpdate + raft.setFastApply.
+func UpdateFlags(ud pb.Update) (fast bool, panicked bool) {
+	return raft.VerifC04UpdateFlags(ud)
+}
+
+// DefaultLogDBFactory is the factory NodeHost uses when Expert.LogDBFactory is
+// not set (sharded Pebble).
+func DefaultLogDBFactory() config.LogDBFactory { return logdb.NewDefaultFactory() }
+
+// TanLogDBFactory is the Tan log store factory.
+func TanLogDBFactory() config.LogDBFactory { return tan.Factory }
